@@ -164,7 +164,7 @@ def extract(repo="/repo", all_targets=False, log=sys.stderr):
     return out
 
 
-def _prune_cache(keep, max_entries=24, min_age_s=3 * 3600):
+def _prune_cache(keep, max_entries=120, min_age_s=2700):
     """Oldest entries beyond `max_entries` are removed, but never one younger than `min_age_s`
     (another check process may be reading it)."""
     ents = []
